@@ -423,3 +423,21 @@ func (g *Gen) GenPresence(c int) *Edit {
 	}
 	return &Edit{K: "p.set", Key: keys[g.R.IntN(len(keys))], S: g.uniq(c)}
 }
+
+// GenEditNoTombstones is the workload of an attachment that opted out of GC
+// on the wire (docs/design/disable-gc-on-attach.md): counters, primitive
+// replacement, presence.
+func (g *Gen) GenEditNoTombstones(c int, root *yjson.Object) *Edit {
+	var cnts []target
+	for _, t := range targets(root) {
+		if t.kind == "cnt" {
+			cnts = append(cnts, t)
+		}
+	}
+	if len(cnts) > 0 && g.R.IntN(2) == 0 {
+		t := cnts[g.R.IntN(len(cnts))]
+		return &Edit{K: "c.inc", P: t.path, V: &Val{T: "long", I: int64(1 + g.R.IntN(9))}}
+	}
+	v := keyVocab["prim"]
+	return &Edit{K: "o.set", Key: v[g.R.IntN(len(v))], V: g.primVal(c)}
+}
